@@ -25,6 +25,7 @@ func init() {
 	vRegister("H19_nth", H19_nth)
 	vRegister("H14_large", H14_large)
 	vRegister("H16_fields", H16_fields)
+	vRegister("H16_lockset", H16_lockset)
 	vRegister("H10_vec", H10_vec)
 	vNativeResetHooks = append(vNativeResetHooks, faiss.VerifReset)
 }
@@ -918,4 +919,95 @@ func H10_vec() {
 		}
 	}
 	vRunSpawned()
+}
+
+// H16_lockset (reduction R1 for "concurrent searchers with the expiry monitor running"): the cache map, and the
+// fields of a cache entry that searchers read and the monitor / a filtered opener write (reference count, id
+// maps), are only touched with the cache's lock held - in particular a reference is taken inside the same
+// critical section that found the entry. Then concurrent openers, closers and expiry passes are equivalent to
+// one of the sequential histories H16_history explores. Natively (replay of a lockset counterexample) the
+// harness is a concurrent stress run under the race detector.
+func H16_lockset() {
+	sim := index.EuclideanDistance
+	docs := []index.Document{
+		&vDoc{id: "d0", fields: []index.Field{vIDField("d0"), &vVecField{name: "v", vec: vCatalogue[0], sim: sim}}},
+		&vDoc{id: "d1", fields: []index.Field{vIDField("d1"), &vVecField{name: "v", vec: vCatalogue[1], sim: sim}}},
+	}
+	var z ZapPlugin
+	segI, _, err := z.newWithChunkMode(docs, DefaultChunkMode)
+	vAssert(err == nil, "build")
+	sb := segI.(*SegmentBase)
+	if !vSymbolic() {
+		// several goroutines open, hold briefly and close unfiltered handles while this goroutine does the
+		// first filtered open (which adds the doc->vector map to the entry) and an expiry pass runs now and then;
+		// no engine searches run concurrently (the stand-in's ledger is not synchronised)
+		// (a fresh segment - a fresh cache entry - per round: the doc->vector map is added once per entry)
+		const workers, rounds = 6, 300
+		for r := 0; r < rounds; r++ {
+			sI, _, err := z.newWithChunkMode(docs, DefaultChunkMode)
+			vAssert(err == nil, "stress-build")
+			s := sI.(*SegmentBase)
+			done := make(chan struct{}, workers)
+			start := make(chan struct{})
+			for w := 0; w < workers; w++ {
+				go func() {
+					defer func() { done <- struct{}{} }()
+					<-start
+					for i := 0; i < 12; i++ {
+						vi, err := s.InterpretVectorIndex("v", false, nil)
+						if err == nil && vi != nil {
+							vi.Close()
+						}
+					}
+				}()
+			}
+			close(start)
+			for i := 0; i < 4; i++ {
+				vi, err := s.InterpretVectorIndex("v", true, nil)
+				vAssert(err == nil && vi != nil, "filtered-open")
+				vi.Close()
+			}
+			s.vecIndexCache.cleanup()
+			for w := 0; w < workers; w++ {
+				<-done
+			}
+			vAssert(s.Close() == nil, "stress-close")
+		}
+		_ = sb
+		return
+	}
+	vGuardMap(sb.vecIndexCache.cache, &sb.vecIndexCache.m)
+	// first open creates the entry; its fields are guarded from then on
+	first, err := sb.InterpretVectorIndex("v", false, nil)
+	vAssert(err == nil && first != nil, "interpret")
+	sb.vecIndexCache.m.RLock()
+	e := sb.vecIndexCache.cache[sb.fieldsMap["v"]]
+	sb.vecIndexCache.m.RUnlock()
+	vAssert(e != nil, "entry-cached")
+	vGuardAny(&e.refs, &sb.vecIndexCache.m)
+	vGuard(&e.docVecIDMap, &sb.vecIndexCache.m)
+	var open []segment.VectorIndex
+	open = append(open, first)
+	for ev := 0; ev < vParam("maxEvents", 4); ev++ {
+		switch vChoice(fmt.Sprint("ev", ev), 4) {
+		case 0:
+			vi, err := sb.InterpretVectorIndex("v", false, nil)
+			vAssert(err == nil && vi != nil, "interpret")
+			open = append(open, vi)
+		case 1: // filtered open: takes the lock-upgrade path the first time
+			vi, err := sb.InterpretVectorIndex("v", true, nil)
+			vAssert(err == nil && vi != nil, "interpret-filtered")
+			open = append(open, vi)
+		case 2:
+			if len(open) > 0 {
+				open[0].Close()
+				open = open[1:]
+			}
+		case 3:
+			sb.vecIndexCache.cleanup()
+		}
+	}
+	for _, vi := range open {
+		vi.Close()
+	}
 }
